@@ -3,7 +3,7 @@ CONSTANTS
   Abis = {"x64-pe", "ia32-pe", "arm64-elf", "mips32-elf"}
   MaxUses = 2
   Cat = "full"
-  MapNames = {"AB", "AB_BC", "AB_XB"}
+  MapNames = {"AB"}
   WithPatch = TRUE
   Emit = TRUE
 INVARIANT Inv
